@@ -58,9 +58,14 @@ static uint32_t COTNmtHbProdSize(struct CO_OBJ_T *obj, struct CO_NODE_T *node, u
     CO_UNUSED(node);
     CO_UNUSED(width);
 
-    /* check for valid reference */
-    if ((obj->Data) != (CO_DATA)0) {
+    if (CO_IS_DIRECT(obj->Key) != 0) {
+        /* value is stored in the object entry itself */
         result = COT_ENTRY_SIZE;
+    } else {
+        /* check for valid reference */
+        if ((obj->Data) != (CO_DATA)0) {
+            result = COT_ENTRY_SIZE;
+        }
     }
     return (result);
 }
